@@ -21,6 +21,12 @@ impl<T> FftCache<T> {
         }
     }
     pub fn get(&self, len: usize, direction: FftDirection) -> Option<Arc<dyn Fft<T>>> {
+        #[cfg(rustfft_verif)]
+        crate::verif_hooks::emit(|| crate::verif_hooks::VerifEvent::CacheGet {
+            len,
+            inverse: direction == FftDirection::Inverse,
+            hit: self.contains_fft(len, direction),
+        });
         match direction {
             FftDirection::Forward => self.forward_cache.get(&len),
             FftDirection::Inverse => self.inverse_cache.get(&len),
@@ -30,6 +36,11 @@ impl<T> FftCache<T> {
     pub fn insert(&mut self, fft: &Arc<dyn Fft<T>>) {
         let cloned = Arc::clone(fft);
         let len = cloned.len();
+        #[cfg(rustfft_verif)]
+        crate::verif_hooks::emit(|| crate::verif_hooks::VerifEvent::CacheInsert {
+            len,
+            inverse: cloned.fft_direction() == FftDirection::Inverse,
+        });
 
         match cloned.fft_direction() {
             FftDirection::Forward => self.forward_cache.insert(len, cloned),
